@@ -366,6 +366,14 @@ func (t *Txn) SetBlobMetadata(id core.BlobID, md core.BlobInfo) core.Error {
 	return core.NoError
 }
 
+// CanFinishDelete returns true if the blob may be removed permanently by a
+// metadata GC round that uses the given cutoff (unix nanos): it was deleted, or
+// it expired, before the cutoff.
+func CanFinishDelete(blob *fb.BlobF, cutoff int64) bool {
+	del, exp := blob.Deleted(), blob.Expires()
+	return (del != 0 && del < cutoff) || (exp != 0 && exp < cutoff)
+}
+
 // FinishDeleteBlobs deletes the given blobs from the database. This is final
 // and the blobs CANNOT be recovered after this. The caller must ensure that the
 // given blobs have a deletion time or expiry time in the past.
